@@ -7,7 +7,7 @@ import os
 import types
 from mc import fixtures
 
-PARAMS = {'P0': (6, 'AT'), 'P1': (7, 'AT'), 'P2': (6, 'AC'), 'P3': (7, 'AC'), 'DEF': (11, 'ATGAC')}
+PARAMS = {'P0': (6, 'AT'), 'P1': (7, 'AT'), 'P2': (6, 'AC'), 'P3': (7, 'AC'), 'DEF': (11, 'ATGAC'), 'K17': (17, 'AT')}
 
 
 def _lcg(seed):
